@@ -28,6 +28,7 @@
 #include <xercesc/dom/DOMImplementation.hpp>
 #include "DOMImplementationImpl.hpp"
 #include "DOMImplementationListImpl.hpp"
+#include <xercesc/util/XercesVerif.hpp>
 
 namespace XERCES_CPP_NAMESPACE {
 
@@ -60,12 +61,15 @@ void XMLInitializer::terminateDOMImplementationRegistry()
 DOMImplementation *DOMImplementationRegistry::getDOMImplementation(const XMLCh* features) {
 
     XMLMutexLock lock(gDOMImplSrcVectorMutex);
+    XERCES_VERIF_ACCESS("DOMImplementationRegistry.sources", 0, gDOMImplSrcVectorMutex, 0);
 
     XMLSize_t len = gDOMImplSrcVector->size();
 
     // Put our defined source there
     if (len == 0) {
+        XERCES_VERIF_INIT_BEGIN("DOMImplementationRegistry.defaultSource", 0, gDOMImplSrcVectorMutex);
         gDOMImplSrcVector->addElement((DOMImplementationSource*)DOMImplementationImpl::getDOMImplementationImpl());
+        XERCES_VERIF_INIT_END("DOMImplementationRegistry.defaultSource", 0, gDOMImplSrcVectorMutex);
 
         len = gDOMImplSrcVector->size();
     }
@@ -85,12 +89,15 @@ DOMImplementationList* DOMImplementationRegistry::getDOMImplementationList(const
     DOMImplementationListImpl* list = new DOMImplementationListImpl;
 
     XMLMutexLock lock(gDOMImplSrcVectorMutex);
+    XERCES_VERIF_ACCESS("DOMImplementationRegistry.sources", 0, gDOMImplSrcVectorMutex, 0);
 
     XMLSize_t len = gDOMImplSrcVector->size();
 
     // Put our defined source there
+    if (len == 0) XERCES_VERIF_INIT_BEGIN("DOMImplementationRegistry.defaultSource", 0, gDOMImplSrcVectorMutex);
     if (len == 0)
         gDOMImplSrcVector->addElement((DOMImplementationSource*)DOMImplementationImpl::getDOMImplementationImpl());
+    if (len == 0) XERCES_VERIF_INIT_END("DOMImplementationRegistry.defaultSource", 0, gDOMImplSrcVectorMutex);
 
     len = gDOMImplSrcVector->size();
 
@@ -109,6 +116,7 @@ DOMImplementationList* DOMImplementationRegistry::getDOMImplementationList(const
 void DOMImplementationRegistry::addSource (DOMImplementationSource* source)
 {
     XMLMutexLock lock(gDOMImplSrcVectorMutex);
+    XERCES_VERIF_ACCESS("DOMImplementationRegistry.sources", 0, gDOMImplSrcVectorMutex, 1);
     gDOMImplSrcVector->addElement(source);
 }
 
